@@ -70,12 +70,14 @@ f4(35, 'fixed', 'array type larger than the address space: reflect.ArrayOf panic
 f4(36, 'fixed', 'a call of something that is not a macro name on the left of default in an extended file: interface conversion panic in checkDefault', tmpl('{% extends "layout.html" %}{% macro M %}x{% end %}', extra=[('layout.html', '{{ a.b() default "" }}')]), 'C04-36-default-call-non-identifier.diff')
 chain = lambda first, step, k: '\n'.join(['const c1 = ' + first] + ['const c%d = %s' % (i, step.replace('P', 'c%d' % (i - 1))) for i in range(2, k + 1)])
 f4(37, 'fixed', 'a chain of 40 doubling string constants (< 1 KB of source) makes Build copy gigabytes: no return in bounded time, then out of memory', prog('package main\n\n' + chain('"ab"', 'P + P', 40) + '\n\nfunc main() {\n\t_ = len(c40)\n}\n'), 'C04-37-constant-string-length.diff')
-f4(38, 'fixed', 'Inf - Inf on overflowed float constants: math/big ErrNaN panic reaches the host', prog('package main\n\n' + chain('1.5', 'P * P', 40) + '\n\nfunc main() {\n\t_ = c40 - c40\n}\n'), 'C04-38-float-constant-nan-panic.diff')
-f4(39, 'fixed', 'squaring a complex constant 35 times: ErrNaN panic inside the constant multiplication', prog('package main\n\n' + chain('1/3.0 + 1i', 'P * P', 40) + '\n\nfunc main() {\n\t_ = c40\n}\n'), 'C04-38-float-constant-nan-panic.diff')
+f4(38, 'fixed', 'Inf - Inf on overflowed float constants: math/big ErrNaN panic reaches the host', prog('package main\n\n' + chain('1.5', 'P * P', 40) + '\n\nfunc main() {\n\t_ = c40 - c40\n}\n'), 'C04-38-float-constant-exponent-limit.diff')
+f4(39, 'fixed', 'squaring a complex constant 35 times: ErrNaN panic inside the constant multiplication', prog('package main\n\n' + chain('1/3.0 + 1i', 'P * P', 40) + '\n\nfunc main() {\n\t_ = c40\n}\n'), 'C04-38-float-constant-exponent-limit.diff')
 f4(40, 'fixed', 'Program.Disassemble of a function that calls more than 128 distinct functions: index out of range [-128] in funcNameType', prog('package main\n\n' + ''.join('func f%d() int { return %d }\n' % (i, i) for i in range(130)) + '\nfunc main() {\n' + ''.join('\t_ = f%d()\n' % i for i in range(130)) + '}\n'), 'C04-39-disassemble-uint8-index.diff')
 f4(41, 'fixed', 'a bare URL at the top level of an imported Markdown file: panic "internal error: unexpected node" in templateFileToPackage', tmpl('{% import "m.md" %}', main='index.md', extra=[('m.md', '{% macro A %}a{% end %} http://a.b/c')]), 'C04-40-toplevel-url-in-declarations-file.diff')
 f4(42, 'open', 'the parser, the type checker and the emitter recurse on nested sources without a depth limit: the goroutine stack overflows (fatal error, the process dies, not recoverable). With the Go default stack limit of 1 GB: chains of 300 000 unary operators / binary operators / selectors (300-600 KB of source) and 1 000 000 nested parentheses, blocks, composite literals, index expressions, pointer types, {% if %} blocks (2-22 MB) die after about 30 s; nested function literals between 30 000 and 100 000 levels. The workers cap stacks at 64 MiB, where every recursive construct overflows between 6 000 levels (function literals) and 50 000 levels (parentheses). A nesting limit needs several sites (parseExpr recursion, statement nesting, operator and selector chains, types) and a choice of limits: not a small repair. The generator stays at or below 4 000 levels while this is open; a stack overflow on a source that nests less deeply is reported.',
    prog('package main\n\ntype T int\n\nvar x ' + '*' * 30000 + 'T\n\nfunc main() {}\n'), scope='nesting-depth>4000')
+f4(43, 'fixed', 'a chain cN = cN-1*cN-1 + 1/cN-1 of float constants (1.3 KB) costs 25-70 CPU-seconds: additions of constants whose exponents differ by 10^9 bits', prog('package main\n\n' + chain('1 / 3.0', 'P * P + 1/P', 44) + '\n\nfunc main() {\n\t_ = c44\n}\n'), 'C04-38-float-constant-exponent-limit.diff')
+f4(44, 'fixed', 'Program.Disassemble of a function that refers to more than 128 types: index out of range [-128] in disassembleInstruction (fn.Types[int(uint(b))])', prog('package main\n\n' + ''.join('type T%d struct{ f%d int }\n' % (i, i) for i in range(130)) + '\nfunc main() {\n' + ''.join('\t_ = interface{}(T%d{})\n' % i for i in range(130)) + '}\n'), 'C04-39-disassemble-uint8-index.diff')
 json.dump(c04, open('/verif/harness/props/c04/findings.json', 'w'), indent=1, ensure_ascii=False)
 
 c21 = []
@@ -116,6 +118,7 @@ inside = [
  ('check|inside:operand', tmpl('{%%\n(97)\n%%}')),
  ('syntax|inside:operator', tmpl('{% if sortBy := sortBy.(html) default 1 %}{% end %}')),
  ('cycle|inside:operator', tmpl('<div>\n  {{ render "partial.html" }}\n</div>\n', extra=[('partial.html', '{%  const \ts html =render "partial.html" default "" %}')])),
+ ('syntax|inside:operand', tmpl('{{ (func()) default "" }}')),
 ]
 n = 18
 for key, w in inside:
